@@ -7,11 +7,11 @@ from checks import ddcommon
 
 META = {
     "title": "exists / forall / unique, restrict, apply_exists/forall/unique, substitute",
-    "technique": "Rocq proofs: (1) Gallina models of the recursive algorithms of the plain BDD kind (coq/DD/Quant.v, function by function after oxidd-rules-bdd/src/simple/apply_rec.rs and lib.rs: set_pop, quant with the popped cache key and the unique-quantifier 'variable above f' rule, restrict with its tail-recursive literal walk, substitute_prepare + substitute via ite cached under the substitution id, the fused apply_quant, the *_edge entry points) proved sound against the spec layer coq/DD/Sem.v for every well-formed table, every cache satisfying the invariant (any implementation that never invents entries), every operand order and every sufficient fuel; (2) spec-layer laws (order/duplicate independence, duality, support, restrict = cofactor, simultaneous substitution, the complement-edge dispatch tables as identities); correspondence: exhaustive 3-variable sweeps and random instances on the real BDD/BCDD/ZBDD managers decided by the extracted spec functions, and for the BDD kind every operation replayed on the extracted models, which must return the very reference the real code returned",
+    "technique": "Rocq proofs: (1) Gallina models of the recursive algorithms of the plain BDD kind (coq/DD/Quant.v, function by function after oxidd-rules-bdd/src/simple/apply_rec.rs and lib.rs) and of the complement-edge kind (coq/DD/QuantBcdd.v after complement_edge/apply_rec.rs): set_pop, quant with the popped cache key and the unique-quantifier 'variable above f' rule, restrict with its tail-recursive literal walk (BCDD: with the f_neg / vars_neg polarity tracking and the untagged cache key), substitute_prepare + substitute via ite cached under the substitution id, the fused apply_quant (BCDD: instances And / Xor / UniqueNand and the two dispatch tables), the *_edge entry points; each proved sound against the spec layer coq/DD/Sem.v for every well-formed table, every cache satisfying the invariant (any implementation that never invents entries), every operand order and every sufficient fuel; (2) spec-layer laws (order/duplicate independence, duality, support, restrict = cofactor, simultaneous substitution, the dispatch tables as identities); (3) a state machine over table, cache, registry of substitution objects, id counter and cache clears (histories). Correspondence: exhaustive 3-variable sweeps and random instances on the real BDD/BCDD/ZBDD managers decided by the extracted spec functions, and for the BDD and BCDD kinds every operation replayed on the extracted models, which must return the very edge the real code returned",
     "category": "proof",
     "design_ref": "DESIGN.md section 5, C04",
-    "level_text": "Theorems (coq/Props/C04.v, 42, all closed under the global context). Entry points, plain BDD kind, in terms of the Boolean function a handle denotes (bfun_of) and coq/DD/Sem.v: C04_exists / C04_forall / C04_unique (result = exists_s / forall_s / unique_s over the caller's variable list, where the vars handle denotes the conjunction of those variables; any list order, duplicates allowed for exists/forall), C04_apply_exists / C04_apply_forall / C04_apply_unique (all 8 operators: result = the quantifier applied to lift2 op f g) and C04_apply_quant_is_apply_then_quant (the fused form and apply-then-quantify both terminate and denote the same function whatever the caches hold), C04_restrict (result = restrict_s lits f for the literal cube denoted by the vars handle), C04_substitute (result = subst_s of the pairs' functions, simultaneous, for every use of every substitution object registered under its id, in any interleaving, with whatever the cache accumulated before), C04_subst_register / C04_subst_fresh_no_entry (an id never handed out serves nothing, registering it keeps the invariant), C04_qinv_init / C04_qstep_ok / C04_qrun_ok (state machine over table, cache, registry of substitution objects, id counter and cache clears: every operation of every history terminates, keeps the invariant and returns the spec function). Each of these also states: the model never gets stuck with fuel S(nlevels), the table is only extended, BddOK and the cache invariant QCacheOK are preserved. Recursive algorithms for arbitrary sufficient fuel: C04_quant_rec_ok, C04_restrict_ok, C04_prepare_ok, C04_substitute_ok, C04_apply_quant_ok; C04_cube_chain (a handle that denotes a cube has exactly that cube as the literal chain the code walks - canonicity). Spec laws: C04_quant_perm, C04_exists/forall_same_elems, C04_unique_perm, C04_unique_dup, C04_forall_exists_dual, C04_exists_forall_dual, C04_quant_not_support, C04_unique_not_support, C04_restrict_s_over, C04_over_spec, C04_restrict_s_perm, C04_subst_s_var/lift2/id/unused/shannon, C04_aext_bfun_of, C04_bcdd_dispatch_spec, C04_bcdd_unique_dispatch_spec (the two complement-edge dispatch tables incl. UniqueNand, for all 8 operators). Tie to the code (BDD and BCDD; ZBDD has no quantifier API, its restrict shares the sweep): all 256 three-variable functions x all 8 variable subsets x {exists, forall, unique}, x all 27 literal cubes for restrict, sampled pairs x 8 operators x 3 quantifiers x random subsets for the fused forms, replacement vectors from a function pool with one substitution object reused many times and several substitutions alternated with gc and drops in between, under a seed-chosen order (all 6 in thorough); random histories over 4..7 variables; every result's value table (extracted interpreter on the lifted snapshot) must equal the extracted spec (Sem.exists_s / forall_s / unique_s / restrict_s / subst_s) of the operands' tables. BDD cases run a second time through ocaml/c04_main.ml: each of these operations is replayed by the extracted models of coq/DD/Quant.v on the lifted snapshot (table and cache threaded through a snapshot window, a fresh model id per MKSUBST; every 8th operation again without cache and with the reverse operand order) and must return the reference of the real result.",
-    "level_note": "Trusted: Coq kernel, extraction, OCaml drivers, Rust harness, public accessor API. The models are hand-written (coq/DD/Quant.v on top of coq/DD/Apply.v, Build.v). Modelling choices: the cache key (BDDOp::Substitute, numeric operand id) is encoded into the abstract operator code 39+id (injective); the unobservable edge order of terminal_bin is a parameter; inner apply/quant calls get fuel S(nlevels) (proved sufficient); reference counts, the parallel recursor (C07) and out-of-memory paths are not modelled. The complement-edge (BCDD) recursion itself (quant/restrict/substitute with tag tracking) has no algorithmic model here: for BCDD only the dispatch tables are proved (spec-level identities) and the implementation is covered by the sweep against the spec; the ZBDD restrict is covered by the sweep only (the DESIGN.md items 'BCDD restrict with f_neg/vars_neg tracking modelled and proved' and 'ZBDD restrict modelled and proved' are NOT done: partial). unique over a list with a repeated variable is outside the API (a BDD variable set has no multiplicities): C04_unique_dup states what the spec gives. new_substitution_id's global counter is represented by the registry Sg (id |-> object); that ids are never reused is the hypothesis Sg id = Some pairs / Sg id = None of the theorems; that gc/reorder clear the cache is C06.",
+    "level_text": "Theorems (coq/Props/C04.v, 53, all closed under the global context). Entry points of the plain BDD kind, in terms of the Boolean function a handle denotes (bfun_of) and coq/DD/Sem.v: C04_exists / C04_forall / C04_unique (result = exists_s / forall_s / unique_s over the caller's variable list, where the vars handle denotes the conjunction of those variables; any list order, duplicates allowed for exists/forall), C04_apply_exists / C04_apply_forall / C04_apply_unique (all 8 operators: result = the quantifier applied to lift2 op f g), C04_apply_quant_is_apply_then_quant (the fused form and apply-then-quantify both terminate and denote the same function whatever the caches hold), C04_restrict (result = restrict_s lits f for the literal cube denoted by the vars handle), C04_substitute (result = subst_s of the pairs' functions, simultaneous, for every use of every substitution object registered under its id, in any interleaving, with whatever the cache accumulated before), C04_subst_register / C04_subst_fresh_no_entry (an id never handed out serves nothing, registering it keeps the invariant), C04_qinv_init / C04_qstep_ok / C04_qrun_ok (state machine over table, cache, registry of substitution objects, id counter and cache clears: every operation of every history terminates, keeps the invariant and returns the spec function). The same for the complement-edge kind: C04_bcdd_quant, C04_bcdd_apply_quant (through apply_quant_dispatch::<Q,QN> and apply_quant_unique_dispatch incl. UniqueNand, all 8 operators), C04_bcdd_restrict (f_neg / vars_neg tracking), C04_bcdd_substitute, C04_bcdd_subst_register, C04_bcdd_subst_fresh_no_entry. Each of these also states: the model never gets stuck with fuel S(nlevels), the table is only extended, the table invariant (BddOK / BcOK) and the cache invariant (QCacheOK / QCacheOKC) are preserved. Recursive algorithms for arbitrary sufficient fuel: C04_quant_rec_ok, C04_restrict_ok, C04_prepare_ok, C04_substitute_ok, C04_apply_quant_ok and C04_bcdd_quant_rec_ok, C04_bcdd_apply_quant_ok, C04_bcdd_restrict_ok, C04_bcdd_substitute_ok; C04_cube_chain / C04_bcdd_cube_chain (a handle that denotes a cube has exactly that cube as the literal chain the code walks - canonicity). Spec laws: C04_quant_perm, C04_exists/forall_same_elems, C04_unique_perm, C04_unique_dup, C04_forall_exists_dual, C04_exists_forall_dual, C04_quant_not_support, C04_unique_not_support, C04_restrict_s_over, C04_over_spec, C04_restrict_s_perm, C04_subst_s_var/lift2/id/unused/shannon, C04_aext_bfun_of, C04_bcdd_dispatch_spec, C04_bcdd_unique_dispatch_spec. Tie to the code (BDD and BCDD; ZBDD has no quantifier API, its restrict shares the sweep): all 256 three-variable functions x all 8 variable subsets x {exists, forall, unique}, x all 27 literal cubes for restrict, sampled pairs x 8 operators x 3 quantifiers x random subsets for the fused forms, replacement vectors from a function pool with one substitution object reused many times and several substitutions alternated with gc and drops in between, under a seed-chosen order (all 6 in thorough); random histories over 4..7 variables; every result's value table (extracted interpreter on the lifted snapshot) must equal the extracted spec (Sem.exists_s / forall_s / unique_s / restrict_s / subst_s) of the operands' tables. BDD and BCDD cases run a second time through ocaml/c04_main.ml: each of these operations is replayed by the extracted models of coq/DD/Quant.v / coq/DD/QuantBcdd.v on the lifted snapshot (table and cache threaded through a snapshot window, a fresh model id per MKSUBST; every 8th operation again without cache and with the reverse operand order) and must return the edge of the real result.",
+    "level_note": "Trusted: Coq kernel, extraction, OCaml drivers, Rust harness, public accessor API. The models are hand-written (coq/DD/Quant.v on top of coq/DD/Apply.v; coq/DD/QuantBcdd.v on top of coq/DD/ApplyBcdd.v). Modelling choices: the cache key (Substitute, numeric operand id) is encoded into the abstract operator code 39+id (BCDD: 15+id), injective; the unobservable edge order is a parameter; inner apply/quant calls get fuel S(nlevels) (proved sufficient); reference counts, the parallel recursor (C07) and out-of-memory paths are not modelled. Partial: the ZBDD restrict is covered by the sweep only (no model; DESIGN.md's 'ZBDD restrict modelled and proved' is not done). The history state machine (C04_qstep_ok / C04_qrun_ok) is stated for the plain BDD kind only. unique over a list with a repeated variable is outside the API (a variable set has no multiplicities): C04_unique_dup states what the spec gives. new_substitution_id's global counter is represented by the registry Sg (id |-> object); that ids are never reused is the hypothesis Sg id = Some pairs / Sg id = None of the theorems (and the id counter of the state machine); that gc/reorder clear the cache is C06.",
 }
 ALLOWED_AXIOMS = ()
 
@@ -24,8 +24,8 @@ def build(ctx):
 
 
 def build_c04m(ctx):
-    """second driver (BDD cases only): ocaml/c04_main.ml linked against the extraction of
-    coq/Extract/ExC04.v (DD/Table.v + DD/Apply.v + DD/Quant.v); same harness (h_dd)."""
+    """second driver (BDD and BCDD cases): ocaml/c04_main.ml linked against the extraction of
+    coq/Extract/ExC04.v (DD/Table.v, Apply.v, Quant.v, ApplyBcdd.v, QuantBcdd.v); same harness (h_dd)."""
     pid = ctx.pid
     ctx.pid = "C04m"
     try:
@@ -37,7 +37,7 @@ def build_c04m(ctx):
 
 
 class _c04m_driver:
-    """ddcommon.run_dd / replay_dd with the BDD quantification model driver"""
+    """ddcommon.run_dd / replay_dd with the BDD / BCDD model replay driver"""
     def __enter__(self):
         self.orig = ddcommon.build_dd
         ddcommon.build_dd = build_c04m
@@ -137,15 +137,15 @@ def gen_cases(ctx):
 
 def run(ctx):
     cases = gen_cases(ctx)
-    # pass 1 (proof gate + model replay): the BDD cases through the extracted models of coq/DD/Quant.v;
+    # pass 1 (proof gate + model replay): the BDD / BCDD cases through the extracted models of coq/DD/Quant*.v;
     # violations are reported here, the evidence is written by pass 2
     bdd = [c for c in cases if " kind=bdd " in c[0] + " " or " kind=bcdd " in c[0] + " "]
     with _c04m_driver():
         ok_m, bad_m = ddcommon.run_dd(ctx, ["C04"], bdd, rule="", allowed_axioms=ALLOWED_AXIOMS, drv_args=["--c04m"],
-                                      write_ev=False, debug_cases=None, sig_extra="bdd-model")
+                                      write_ev=False, debug_cases=None, sig_extra="model")
     ddcommon.run_dd(
         ctx, ["C04"], cases, proofs=False,
-        extra_cov={"bdd_model_cases_ok": ok_m, "bdd_model_cases_bad": len(bad_m)},
+        extra_cov={"model_replay_cases_ok": ok_m, "model_replay_cases_bad": len(bad_m)},
         rule="per kind (bdd, bcdd): 256 functions x 8 variable subsets x 3 quantifiers; x 27 literal cubes (restrict, also zbdd); sampled pairs x 8 operators x 3 fused quantifier forms x random subsets under cache sizes {2,64,4096}; substitutions (1..3 variables, replacements from a 16-function pool) with each object applied 40 times, the last three objects alternated, gc/drop in between; one seed-chosen order (quick) / all 6 (thorough); random histories over 4..7 variables incl. quantification and substitution. non-trivial = case with >= 3 ops",
         allowed_axioms=ALLOWED_AXIOMS)
 
